@@ -6,12 +6,14 @@ from core import AnalysisBroken, VERIF
 
 # property -> list of (rule id, module, function, tiers)
 CHECKS = {
-    "C15": [("R-GLOBAL", "r_global", "run_global", ("quick", "thorough"))],
+    "C15": [("R-GLOBAL", "r_global", "run_global", ("quick", "thorough")),
+            ("R-CONSTSRC.ir", "r_constsrc", "run", ("quick", "thorough"))],
     "C04": [("R-ALLOC.who", "r_global", "run_alloc_who", ("quick", "thorough")),
             ("R-TMP", "r_tmp", "run", ("quick", "thorough")),
             ("R-ALIAS.mem", "r_alias", "run_mem", ("quick", "thorough")),
             ("R-ALLOC.size", "r_alloc", "run", ("quick", "thorough"))],
-    "C05": [("R-ALIAS", "r_alias", "run", ("quick", "thorough"))],
+    "C05": [("R-ALIAS", "r_alias", "run", ("quick", "thorough")),
+            ("R-CONSTSRC.ir", "r_constsrc", "run", ("quick", "thorough"))],
     "C06": [("R-TABLES.c06", "r_tables", "run_c06", ("quick", "thorough")),
             ("R-TABIDX.digit", "r_tables", "run_digit_index", ("quick", "thorough"))],
     "C16": [("R-TABLES.c16", "r_tables", "run_c16", ("quick", "thorough"))],
@@ -20,7 +22,8 @@ CHECKS = {
     "C19": [("R-RANDCOV", "r_rand", "run", ("quick", "thorough"))],
     "C20": [("R-CXXALIAS", "r_cxx", "run", ("quick", "thorough"))],
     "C01": [("R-CONTRACT", "r_contract", "run", ("quick", "thorough")),
-            ("R-CONSTASSERT", "r_assert", "run_constassert", ("quick", "thorough"))],
+            ("R-CONSTASSERT", "r_assert", "run_constassert", ("quick", "thorough")),
+            ("R-SAMESRC", "r_samesrc", "run", ("quick", "thorough"))],
     "C02": [("R-DIVZERO", "r_divzero", "run", ("quick", "thorough")),
             ("R-CONTRACT", "r_contract", "run", ("quick", "thorough"))],
     "C17": [("R-STREAM", "r_stream", "run", ("quick", "thorough")),
@@ -56,6 +59,8 @@ RULES = {
     "R-ALIAS": ("r_alias", "run"),
     "R-ALIAS.mem": ("r_alias", "run_mem"),
     "R-TABIDX.digit": ("r_tables", "run_digit_index"),
+    "R-CONSTSRC.ir": ("r_constsrc", "run"),
+    "R-SAMESRC": ("r_samesrc", "run"),
 }
 
 EXPLANATION = {
@@ -63,7 +68,10 @@ EXPLANATION = {
            "function-local static is classified (constant / never written and never escaping / written), the written "
            "ones must be exactly the documented set and exported functions reaching their writers must be the "
            "documented non-reentrant ones; every external callee is compared with POSIX's not-thread-safe list. "
-           "Decides the structural clause 'no undocumented shared mutable location'; it does not enumerate schedules.",
+           "Decides the structural clause 'no undocumented shared mutable location'; it does not enumerate schedules.  "
+           "R-CONSTSRC.ir adds the 'possibly reading the same source objects' clause: no function stores - even temporarily - through a "
+           "parameter its prototype declares pointer-to-const, directly or through its callees (whole-program write summaries over the IR, "
+           "constness from the typed AST).",
     "C14": "Static analysis of the build-option dimension: code that exists only under --enable-assert has no effect on state "
            "(R-PURE), every compile-time-constant assertion holds under each shipped tuning table (R-CONSTASSERT), and no "
            "TMP block is used after TMP_FREE or escapes (the alloca / malloc-reentrant / debug temporaries cannot differ). "
@@ -76,7 +84,10 @@ EXPLANATION = {
            "that may move or free the block of any object that may be the same variable, without being reloaded; (R-CLOBBER) no "
            "input is read after an output that may be the same variable was overwritten.  These are the mechanisms the property's "
            "anchors name (copy before overwrite, store ordering, pointers fetched after reallocation).  Values are not modelled: "
-           "equality of aliased and non-aliased results when both are computed by correct code paths is not decided.",
+           "equality of aliased and non-aliased results when both are computed by correct code paths is not decided.  'Operands that "
+           "are not outputs hold the same value after the call': (R-CONSTSRC, aliasflow) the limbs of an input-only mpz/mpq/mpf operand are "
+           "written only on a path that a pointer comparison reserves for 'this operand is the output variable'; (R-CONSTSRC.ir) no "
+           "function writes through a parameter declared pointer-to-const, transitively through its callees.",
     "C06": "Exhaustive static check of the constant data radix conversion rests on: all 255 entries of __gmpn_bases recomputed "
            "exactly (digits per limb, big_base, its inverse, log2/log b), the 480-byte digit-value table against the three digit "
            "alphabets of every output function (writer/reader agreement for every base and digit), and a three-valued analysis "
@@ -111,7 +122,9 @@ EXPLANATION = {
            "declares a size domain in its entry assertions (n >= 17 for Toom-3, an >= 40 for Toom-8 squaring, bn >= 86 and 4an <= 13bn "
            "for Toom-8.5, an >= 20 for the unbalanced Toom-3 variants, ...), the conditions that dominate the call are compared with "
            "that domain (proved / refuted / undecided), under the built tuning table (quick) and all 21 shipped tables (thorough); plus "
-           "every compile-time-constant assertion (threshold-limit stack arrays) under each table.  Exactness of the products - carries, "
+           "every compile-time-constant assertion (threshold-limit stack arrays) under each table; plus (R-SAMESRC) a routine with two "
+           "source operands of separate lengths may take its squaring path on equal source pointers only if the lengths are equal too "
+           "('never depends ... on whether the two operands are the same object').  Exactness of the products - carries, "
            "interpolation, FFT coefficient bounds - is a limb-value property and is NOT decided.",
     "C02": "Static analysis of the division entry points: every public division / modulo / powm function of the manual tests its "
            "divisor for zero and reaches the intentional __gmp_divide_by_zero on the zero edge before any limb-level division "
@@ -184,6 +197,12 @@ ASSUMPTIONS = {
                  "library stream functions return 0 on failure",
                  "getc-based parsers are not covered by this rule (EOF handling is value-dependent)"],
     "R-TMP.io": ["R-TMP restricted to the units that perform stream / raw / string I/O"],
+    "R-CONSTSRC.ir": ["pointer derivation in the IR is a closure over GEP / cast / phi / select / returned pointers after SROA; pointers loaded "
+                      "from memory are not followed (the mpz layer's PTR (u) is covered by aliasflow's R-CONSTSRC)",
+                      "external callees (assembly kernels, libc) write exactly through the parameters their C prototypes declare pointer to non-const "
+                      "(register discipline of the kernels is R-ABI's subject; their memory footprint is taken from the prototypes)",
+                      "pointers handed to indirect calls are counted as undecided"],
+    "R-SAMESRC": ["an operand's own length is the integer parameter that immediately follows its pointer parameter (the library's convention)"],
     "R-ALLOC.who": ["direct calls and address-taking in the linked IR are all the ways to reach the C allocator"],
 }
 
